@@ -1,6 +1,7 @@
 SPECIFICATION Spec
 CONSTANTS Depth = 2
  MaxSize = 6
+ NestSize = 4
  CoreSize = 3
 INVARIANT TermOK
 INVARIANT NonVacuous
